@@ -31,10 +31,10 @@ def build(rep):
         rep.oblige('coq: Proofs.SrcOk compiles (every translated definition is proved equal to the model function the theorems use)', sok,
                    '' if sok else json.dumps([e for e in b['errors'] if e['file'].startswith('Proofs/SrcOk') or e['file'].startswith('Gen/Src.')][:2]))
     if rep.pid in SRCM_PROPS:
-        rep.oblige('T1c: Gen/SrcMerge.v - the control skeletons of ConfigNode / ComposedNode / FunctionNode / ConfigList.on_merge_impl and _require_all_new of ConfigNode / ComposedNode translated from the Python source over the model\'s primitives (fail-closed translator)',
+        rep.oblige('T1c: Gen/SrcMerge.v - the control skeletons of ConfigNode / ComposedNode / FunctionNode / ConfigList.on_merge_impl _require_all_new of ConfigNode / ComposedNode, Builder.flatten and ConfigNode.merge translated from the Python source over the model\'s primitives (fail-closed translator)',
                    b['srcm_ok'], b['srcm_log'][-500:] if not b['srcm_ok'] else '')
         mok = common.vo_ok('Proofs/SrcMergeOk')
-        rep.oblige('coq: Proofs.SrcMergeOk compiles (the translated skeletons are proved equal to leaf_merge / comp_merge (merge_step, prune) / func_merge / list_merge / require_all_new of Model/Merge.v)', mok,
+        rep.oblige('coq: Proofs.SrcMergeOk compiles (the translated skeletons are proved equal to leaf_merge / comp_merge (merge_step, prune) / func_merge / list_merge / require_all_new / merge2 / flatten of Model/Merge.v)', mok,
                    '' if mok else json.dumps([e for e in b['errors'] if e['file'].startswith('Proofs/SrcMergeOk') or e['file'].startswith('Gen/SrcMerge')][:2]))
     if rep.pid in SRCE_PROPS:
         rep.oblige('T1d: Gen/SrcEval.v - the control skeletons of EvalContext.evaluate_node, EvalContext.evaluate, Config.check_missing and Config.__init__ translated from the Python source over the primitives of Model/Eval.v (fail-closed translator)',
